@@ -91,14 +91,24 @@ def main():
                 if j.get("scripts"):
                     import scripted as S
                     S.uninstall()
-                    dag.set_adapter({"type": "local"})
-                    dag.generate_scripts()
-                    scripts = {}
-                    for k, r in dag.values.items():
-                        if k != "_source":
-                            scripts[k] = [open(r.script).read().replace(root, "<ROOT>"),
-                                          os.path.relpath(r.script, root)]
-                    item["scripts"] = scripts
+                    batch_block = j.get("script_batch") or {"type": "local"}
+                    if batch_block["type"] == "flux":
+                        import fakeenv
+                        fakeenv.install_flux()
+                    dag.set_adapter(batch_block)
+                    try:
+                        dag.generate_scripts()
+                        scripts = {}
+                        for k, r in dag.values.items():
+                            if k != "_source":
+                                scripts[k] = [open(r.script).read().replace(root, "<ROOT>"),
+                                              os.path.relpath(r.script, root),
+                                              open(r.restart_script).read().replace(root, "<ROOT>")
+                                              if r.restart_script else None, bool(r.to_be_scheduled)]
+                        item["scripts"] = scripts
+                    except (ValueError, TypeError, KeyError, ZeroDivisionError) as e:
+                        # a refused step must be refused the same way everywhere
+                        item["scripts"] = "SCRIPTFAIL:%s:%s" % (type(e).__name__, str(e)[:120].replace(root, "<ROOT>"))
             res.append(item)
         except Exception as e:  # noqa
             res.append({"id": j["id"], "out": "LOADFAIL:%s:%s" % (type(e).__name__, str(e)[:80])})
